@@ -35,17 +35,17 @@ Proof.
   - intros He. destruct (inv_epic g HI i t0 Hl0 He) as (? & ? & _). split; assumption.
 Qed.
 
-(** After ANY sequence of commands (all input modes, any clock / id stream / file system; here still
-    without prune and plan, see C06_scope) every task is in one of the six states, claimed iff the
+(** After ANY sequence of commands (every command incl. prune, plan and compact, all input modes, any
+    clock / id stream / file system) every task is in one of the six states, claimed iff the
     state demands it; epics have neither a state change nor a claimant. *)
-Theorem C06_invariant_partial : forall log,
+Theorem C06_invariant : forall log,
   Reach log ->
   exists g, replay log = Ok g /\
     forall i t, g_tasks g !! i = Some t ->
       (t_is_epic t = false -> claim_rule t) /\
       (t_is_epic t = true -> t_state t = "todo" /\ t_claimed t = "").
 Proof. exact C06_invariant_lemma. Qed.
-Print Assumptions C06_invariant_partial.
+Print Assumptions C06_invariant.
 
 (** No request shape bypasses the transition table: whatever [set] / [claim <id>] / create-with-state
     accepts moves the task along a row of the table (or leaves the state alone) and lands in a
@@ -103,5 +103,5 @@ Definition ex_log : list event :=
 Example C06_nonvacuous : Reach ex_log /\ length ex_log = 4%nat.
 Proof.
   split; [|vm_compute; reflexivity].
-  unfold ex_log. apply reach_step; [apply reach_step; [apply reach_init|]|]; vm_compute; exact I.
+  unfold ex_log. apply reach_step. apply reach_step. apply reach_init.
 Qed.
